@@ -2,6 +2,7 @@ package hsim
 
 import (
 	"math"
+	"strings"
 
 	"github.com/aukilabs/hagall-common/messages/dagazpb"
 	"github.com/aukilabs/hagall-common/messages/hagallpb"
@@ -63,6 +64,13 @@ var clientKinds = []msgKind{
 }
 
 var floatEdges = []float64{0, 1, -1, 0.5, 63.5, -64, 1e9, -1e9, 1e30, -1e30, math.MaxFloat32, math.Inf(1), math.Inf(-1), math.NaN(), math.SmallestNonzeroFloat32}
+
+// floatsInRange: coordinates the dagaz input validation lets through (|x| <= 1024), for messages
+// that are well-formed field by field and odd only in combination (inverted boxes, boxes beside
+// the grid, degenerate extents, rays along an axis)
+var floatsInRange = []float64{0, 0, 1, -1, 0.5, -0.5, 2, -2, 3.25, 10, -10, 63.5, -64, 100, -100, 127, -128, math.SmallestNonzeroFloat32}
+var curFloats = floatEdges
+
 var uintEdges = []uint64{0, 1, 2, 3, 7, 255, 65535, math.MaxUint32}
 
 func fillMessage(r *simrt.Rand, m protoreflect.Message, depth int, pAbsent float64) {
@@ -136,9 +144,9 @@ func scalar(r *simrt.Rand, fd protoreflect.FieldDescriptor) protoreflect.Value {
 	case protoreflect.Uint64Kind, protoreflect.Fixed64Kind:
 		return protoreflect.ValueOfUint64(uintEdges[r.Intn(len(uintEdges))])
 	case protoreflect.FloatKind:
-		return protoreflect.ValueOfFloat32(float32(floatEdges[r.Intn(len(floatEdges))]))
+		return protoreflect.ValueOfFloat32(float32(curFloats[r.Intn(len(curFloats))]))
 	case protoreflect.DoubleKind:
-		return protoreflect.ValueOfFloat64(floatEdges[r.Intn(len(floatEdges))])
+		return protoreflect.ValueOfFloat64(curFloats[r.Intn(len(curFloats))])
 	case protoreflect.StringKind:
 		return protoreflect.ValueOfString([]string{"", "x", "alpha", "0x00", string(make([]byte, 300)), "\xff\xfe"}[r.Intn(6)])
 	case protoreflect.BytesKind:
@@ -150,9 +158,25 @@ func scalar(r *simrt.Rand, fd protoreflect.FieldDescriptor) protoreflect.Value {
 // genMalformed returns the wire payload of one structurally valid message.
 func genMalformed(r *simrt.Rand) (payload []byte, desc string) {
 	k := clientKinds[r.Intn(len(clientKinds))]
-	m := k.new()
 	pAbsent := []float64{0, 0.3, 0.6, 0.9}[r.Intn(4)]
+	curFloats = floatEdges
+	if r.Bool(0.15) {
+		// a dagaz request whose every coordinate passes the input validation
+		var dz []msgKind
+		for _, ck := range clientKinds {
+			if strings.HasPrefix(ck.name, "Dagaz") {
+				dz = append(dz, ck)
+			}
+		}
+		if len(dz) > 0 {
+			k = dz[r.Intn(len(dz))]
+			curFloats = floatsInRange
+			pAbsent = 0
+		}
+	}
+	m := k.new()
 	fillMessage(r, m.ProtoReflect(), 0, pAbsent)
+	curFloats = floatEdges
 	typ := k.typ
 	desc = k.name
 	switch x := r.Intn(12); {
